@@ -359,6 +359,48 @@ class Repo:
         self._mro_cache[key] = out
         return out
 
+    def class_constant(self, ci, attr):
+        """the constant a class-level ``attr = <constant>`` gives ``self.attr`` in methods run on
+        instances of exactly ``ci`` or of its subclasses -- None unless every one of them sees the
+        same constant and nothing in the package ever stores an attribute of that name"""
+        key = ('cc', ci.qual, attr)
+        if key in self._mro_cache:
+            return self._mro_cache[key]
+        res = None
+        if attr not in self._stored_attr_names():
+            def lookup(c):
+                for k in self.mro(c):
+                    for st in k.node.body:
+                        if isinstance(st, ast.Assign) and len(st.targets) == 1 and isinstance(st.targets[0], ast.Name) and st.targets[0].id == attr:
+                            return st.value if isinstance(st.value, ast.Constant) else False
+                        if isinstance(st, (ast.FunctionDef, ast.ClassDef)) and st.name == attr:
+                            return False
+                return None
+            mine = lookup(ci)
+            if mine is not None and mine is not False:
+                same = True
+                for sub in self.subclasses(ci.name, strict=True):
+                    v = lookup(sub)
+                    if v is None or v is False or not (type(v.value) is type(mine.value) and v.value == mine.value):
+                        same = False
+                if same:
+                    res = mine
+        self._mro_cache[key] = res
+        return res
+
+    def _stored_attr_names(self):
+        if getattr(self, '_stored_names', None) is None:
+            out = set()
+            for info in self.modules.values():
+                for n in ast.walk(info['tree']):
+                    if isinstance(n, ast.Attribute) and isinstance(n.ctx, (ast.Store, ast.Del)):
+                        out.add(n.attr)
+                    elif isinstance(n, ast.Call) and isinstance(n.func, ast.Name) and n.func.id in ('setattr', 'delattr') and len(n.args) >= 2:
+                        if isinstance(n.args[1], ast.Constant):
+                            out.add(n.args[1].value)
+            self._stored_names = out
+        return self._stored_names
+
     def private_sentinels(self):
         """module-private names bound once to a fresh ``object()``: markers for "no value given".
         Modelling assumption (stated in the evidence): a value that enters through a parameter
@@ -396,6 +438,7 @@ class Repo:
                             return isinstance(t.ops[0], ast.IsNot)
                 return None
         w = Walker(self.resolver(recv_types), max_paths=max_paths, inline_depth=inline_depth, fold=fold, tag=tag, keep=keep)
+        w.class_constant = self.class_constant
         w.split_ifexp = split_ifexp
         return w
 
